@@ -264,43 +264,36 @@ def readParam (p : Parameter α α) : Option (Value α α × Tween α) → Param
   | some (v, tw) => p.set v tw
   | none => p
 
+/-- `read_commands`, part 1: the three parameter commands; every command slot is emptied -/
+def readParamCmds (s : StaticSound α) : StaticSound α :=
+  { s with cmds := {}
+           volume := readParam s.volume s.cmds.setVolume
+           playbackRate := readParam s.playbackRate s.cmds.setPlaybackRate
+           panning := readParam s.panning s.cmds.setPanning }
+
+/-- `set_loop_region` command handler -/
+def setLoopRegion (r : Option (Region α)) (s : StaticSound α) : Except Fault (StaticSound α) :=
+  andThen (numFrames s.frames.size s.slice) (fun n =>
+    .ok { s with transport := s.transport.setLoopRegion (r.map (fun r => r.toSamples s.sampleRate n)) })
+
+/-- `read_commands`, part 2: `set_loop_region` -/
+def readLoopCmd (c : Commands α) (s : StaticSound α) : Except Fault (StaticSound α) :=
+  applyOptE c.setLoopRegion setLoopRegion s
+
+/-- `read_commands`, part 3: `pause`, `resume`, `stop` (in this order) -/
+def readLifeCmds (c : Commands α) (s : StaticSound α) : StaticSound α :=
+  { s with core := (applyOpt c.stop (fun tw core => core.stop tw)
+      (applyOpt c.resume (fun p core => core.resume p.1 p.2)
+        (applyOpt c.pause (fun tw core => core.pause tw) s.core))) }
+
+/-- `read_commands`, part 4: `seek_by`, then `seek_to` -/
+def readSeekCmds (c : Commands α) (s : StaticSound α) : Except Fault (StaticSound α) :=
+  andThen (applyOptE c.seekBy (fun x s => s.seekBy x) s) (applyOptE c.seekTo (fun x s => s.seekTo x))
+
 /-- mirrors: StaticSound::read_commands (order: volume, playback_rate, panning, set_loop_region, pause,
     resume, stop, seek_by, seek_to); every slot is emptied -/
 def readCommands (s : StaticSound α) : Except Fault (StaticSound α) :=
-  let c := s.cmds
-  let s : StaticSound α :=
-    { s with cmds := {}
-             volume := readParam s.volume c.setVolume
-             playbackRate := readParam s.playbackRate c.setPlaybackRate
-             panning := readParam s.panning c.setPanning }
-  let s1 : Except Fault (StaticSound α) :=
-    match c.setLoopRegion with
-    | some r =>
-      match numFrames s.frames.size s.slice with
-      | .error f => .error f
-      | .ok n => .ok { s with transport := s.transport.setLoopRegion (r.map (fun r => r.toSamples s.sampleRate n)) }
-    | none => .ok s
-  match s1 with
-  | .error f => .error f
-  | .ok s =>
-    let s := match c.pause with
-      | some tw => { s with core := s.core.pause tw }
-      | none => s
-    let s := match c.resume with
-      | some (st, tw) => { s with core := s.core.resume st tw }
-      | none => s
-    let s := match c.stop with
-      | some tw => { s with core := s.core.stop tw }
-      | none => s
-    let s2 : Except Fault (StaticSound α) := match c.seekBy with
-      | some x => s.seekBy x
-      | none => .ok s
-    match s2 with
-    | .error f => .error f
-    | .ok s =>
-      match c.seekTo with
-      | some x => s.seekTo x
-      | none => .ok s
+  andThen (readLoopCmd s.cmds s.readParamCmds) (fun s1 => readSeekCmds s.cmds (readLifeCmds s.cmds s1))
 
 /-- mirrors: `impl Sound for StaticSound`::on_start_processing -/
 def onStartProcessing (s : StaticSound α) : Except Fault (StaticSound α) :=
